@@ -1,0 +1,20 @@
+//go:build verif
+
+package message
+
+import "github.com/PelicanPlatform/classad/classad"
+
+// Verification hooks for property C08 (add-only, build tag verif): thin
+// exports of the unexported literal fast path and expression decoder.
+
+func VerifTryInsertLiteral(ad *classad.ClassAd, attr, valueStr string) error {
+	return tryInsertLiteral(ad, attr, valueStr)
+}
+
+func VerifParseAndInsertExpression(ad *classad.ClassAd, exprStr string) error {
+	return parseAndInsertExpression(ad, exprStr)
+}
+
+func VerifDecodeOldClassAdString(inner string) (string, bool) {
+	return decodeOldClassAdString(inner)
+}
